@@ -645,6 +645,9 @@ class AttackGraph():
         if node.id in self._id_to_node:
             raise ValueError(f'Node index {node_id} already in use.')
 
+        if node_id is not None and node_id in self._id_to_node:
+            raise ValueError(f'Node index {node_id} already in use.')
+
         node.id = node_id if node_id is not None else self.next_node_id
         self.next_node_id = max(node.id + 1, self.next_node_id)
 
